@@ -9,6 +9,7 @@
 -/
 import TealerModel.Lemmas.Worklist
 import TealerModel.Detect
+import TealerModel.Lemmas.Confluence
 namespace Tealer.C14
 
 variable {V : Type} [DecidableEq V]
@@ -34,5 +35,62 @@ theorem C14_perm_precondition (F : List (Nat × V) → Nat → V) (dflt : V) (in
     another reads — in the model the contexts are an immutable argument -/
 theorem C14_detector_pure (f : Function) (c : Contexts) (d d' : Detector) (fuel : Nat) :
     (detect f c d fuel, detect f c d' fuel) = (detect f c d fuel, (fun _ => detect f c d' fuel) (detect f c d fuel)) := rfl
+
+/-- set inclusion on the list representation of the integer / transaction-kind sets -/
+def subsetLe (a b : NatSet) : Prop := ∀ x ∈ a, x ∈ b
+
+theorem natSet_mono (A : Analysis NatSet) (hd : A.dom = natSetDomain) : Confluence.MonoLaws A subsetLe := by
+  refine ⟨fun a x hx => hx, ?_, ?_, ?_⟩
+  · intro a a' b b' h1 h2 x hx
+    rw [hd] at hx ⊢
+    simp only [natSetDomain] at hx ⊢
+    rcases (OSet.mem_union x a b).mp hx with h | h
+    · exact (OSet.mem_union x a' b').mpr (Or.inl (h1 x h))
+    · exact (OSet.mem_union x a' b').mpr (Or.inr (h2 x h))
+  · intro a a' b b' h1 h2 x hx
+    rw [hd] at hx ⊢
+    simp only [natSetDomain] at hx ⊢
+    obtain ⟨ha, hb⟩ := (OSet.mem_inter x a b).mp hx
+    exact (OSet.mem_inter x a' b').mpr ⟨h1 x ha, h2 x hb⟩
+  · intro a x hx
+    rw [hd] at hx
+    simp [natSetDomain] at hx
+
+/-- THE WORKLIST REACHES A UNIQUE FIXPOINT, WHATEVER THE ORDER A SET ITERATION GIVES.  Forward pass of the group-size /
+    group-index analysis (the same proof applies to the transaction-kind analysis: same domain): on a function graph whose
+    predecessor lists are mirrored by successor lists, whose return points know their call sites and whose successors are
+    blocks of the function, two runs started from ANY two initial worklists that contain every block have, when both
+    stop, the same members in every block's set.  (The premises are the decidable conditions of `Solver.fwdWF`, which the
+    driver evaluates per program; they fail exactly on the F04 shape — where the hash-seed dependence F25 was observed.) -/
+theorem C14_forward_order_independent (g : Graph) (univ : NatSet) (bc : Nat → NatSet) (pc : Nat → Nat → NatSet)
+    (hmirror : ∀ b ∈ g.keys, ∀ p ∈ g.prevG b, b ∈ g.nextG p)
+    (hret : ∀ b ∈ g.keys, ∀ c, g.callsubOf b = some c → g.retPointOf c = some b)
+    (hclosed : ∀ b ∈ g.keys, ∀ d ∈ fwdDeps g b, d ∈ g.keys)
+    (wl1 wl2 : List Nat) (h1 : ∀ b ∈ wl1, b ∈ g.keys) (h2 : ∀ b ∈ wl2, b ∈ g.keys)
+    (c1 : ∀ b ∈ g.keys, b ∈ wl1) (c2 : ∀ b ∈ g.keys, b ∈ wl2)
+    (f1 f2 : Nat) (r1 r2 : List (Nat × NatSet))
+    (hr1 : worklistRun (fwdF groupIndicesAnalysis g univ bc pc) (fwdDeps g) groupIndicesAnalysis.dom.null f1
+      (g.keys.map fun k => (k, groupIndicesAnalysis.dom.null)) wl1 = some r1)
+    (hr2 : worklistRun (fwdF groupIndicesAnalysis g univ bc pc) (fwdDeps g) groupIndicesAnalysis.dom.null f2
+      (g.keys.map fun k => (k, groupIndicesAnalysis.dom.null)) wl2 = some r2) :
+    ∀ k x, x ∈ getMap r1 k groupIndicesAnalysis.dom.null ↔ x ∈ getMap r2 k groupIndicesAnalysis.dom.null := by
+  have := Confluence.solveFwd_confluent groupIndicesAnalysis subsetLe (natSet_mono groupIndicesAnalysis rfl) g univ bc pc
+    hmirror hret hclosed wl1 wl2 h1 h2 c1 c2 f1 f2 r1 r2 hr1 hr2
+  intro k x
+  exact ⟨(this k).1 x, (this k).2 x⟩
+
+/-- the generic statement: any analysis whose domain operations are monotone for some order -/
+theorem C14_forward_order_independent_generic {D : Type} [DecidableEq D] (A : Analysis D) (le : D → D → Prop)
+    (M : Confluence.MonoLaws A le) (g : Graph) (univ : D) (bc : Nat → D) (pc : Nat → Nat → D)
+    (hmirror : ∀ b ∈ g.keys, ∀ p ∈ g.prevG b, b ∈ g.nextG p)
+    (hret : ∀ b ∈ g.keys, ∀ c, g.callsubOf b = some c → g.retPointOf c = some b)
+    (hclosed : ∀ b ∈ g.keys, ∀ d ∈ fwdDeps g b, d ∈ g.keys)
+    (wl1 wl2 : List Nat) (h1 : ∀ b ∈ wl1, b ∈ g.keys) (h2 : ∀ b ∈ wl2, b ∈ g.keys)
+    (c1 : ∀ b ∈ g.keys, b ∈ wl1) (c2 : ∀ b ∈ g.keys, b ∈ wl2)
+    (f1 f2 : Nat) (r1 r2 : List (Nat × D))
+    (hr1 : worklistRun (fwdF A g univ bc pc) (fwdDeps g) A.dom.null f1 (g.keys.map fun k => (k, A.dom.null)) wl1 = some r1)
+    (hr2 : worklistRun (fwdF A g univ bc pc) (fwdDeps g) A.dom.null f2 (g.keys.map fun k => (k, A.dom.null)) wl2 = some r2) :
+    ∀ k, le (getMap r1 k A.dom.null) (getMap r2 k A.dom.null) ∧ le (getMap r2 k A.dom.null) (getMap r1 k A.dom.null) :=
+  Confluence.solveFwd_confluent A le M g univ bc pc hmirror hret hclosed wl1 wl2 h1 h2 c1 c2 f1 f2 r1 r2 hr1 hr2
 
 end Tealer.C14
